@@ -577,7 +577,7 @@ func TestCheck(t *testing.T) {
 		}
 	}
 	r.Set("enumerated_tables", len(en))
-	n := r.Pick(40000, 800000)
+	n := r.Pick(40000, 4000000)
 	for i := 0; i < n; i++ {
 		if r.Mine(i) {
 			judge(r, t, genScenario(r.Rand("c13", i), 3, 2))
